@@ -62,6 +62,14 @@ def build_impl():
     pkg = os.path.join(d, "digital_rf")
     shutil.copytree(os.path.join(REPO, "python", "digital_rf"), pkg,
                     ignore=shutil.ignore_patterns("__pycache__", "*.so"))
+    ver = os.path.join(pkg, "_version.py")
+    if not os.path.exists(ver):
+        # generated, untracked file (absent from git worktrees): take /repo's or a stub
+        src = "/repo/python/digital_rf/_version.py"
+        if os.path.exists(src):
+            shutil.copy(src, ver)
+        else:
+            open(ver, "w").write("__version__ = version = '0.1.dev1'\n__version_tuple__ = version_tuple = (0, 1, 'dev1')\n")
     so = os.path.join(pkg, "_py_rf_write_hdf5.cpython-312-x86_64-linux-gnu.so")
     cmd = ["gcc", "-O1", "-g", "-shared", "-fPIC", "-w", "-D%s=1" % GUARD, "-o", so,
            os.path.join(REPO, "c/lib/rf_write_hdf5.c"),
@@ -247,9 +255,23 @@ def coq_make(targets, timeout=1500, force=()):
     return 0, "\n".join(log_)
 
 
-def grep_forbidden():
+def coq_closure(rel):
+    seen, order = set(), []
+
+    def visit(r):
+        if r in seen or not os.path.exists(os.path.join(COQ, r)):
+            return
+        seen.add(r)
+        for d in coq_deps(r):
+            visit(d)
+        order.append(r)
+    visit(rel)
+    return order
+
+
+def grep_forbidden(files=None):
     bad = []
-    for rel in coq_files():
+    for rel in (files if files is not None else coq_files()):
         txt = open(os.path.join(COQ, rel)).read()
         # strip comments (non-nested approximation is enough: we only want to avoid prose hits)
         txt2 = re.sub(r"\(\*.*?\*\)", "", txt, flags=re.S)
@@ -271,7 +293,7 @@ def check_property_file(prop, extra_targets=()):
         raise Broken("no property file " + rel)
     src = re.sub(r"\(\*.*?\*\)", "", open(path).read(), flags=re.S)
     theorems = [m.group(2) for m in THEOREM_RE.finditer(src)]
-    bad = grep_forbidden()
+    bad = grep_forbidden(coq_closure(rel))
     if bad:
         raise Broken("forbidden constructs in the development: " + "; ".join(bad[:10]))
     rc, out = coq_make([rel] + list(extra_targets), force=(rel,))
